@@ -1977,14 +1977,19 @@ impl VectorEngine {
         {
             let cache = self.hnsw_cache.read();
             if let Some((index, mapping)) = cache.get("_default") {
-                if !mapping.is_empty() {
+                // The index holds vectors of one dimension; a query of another dimension
+                // has no eligible neighbour there and must take the exact (filtering) path.
+                let same_dimension = index
+                    .get_vector(0)
+                    .is_some_and(|v| v.len() == query.len());
+                if !mapping.is_empty() && same_dimension {
                     let neighbors = index.search(query, top_k);
-                    let prefix = Self::embedding_prefix();
+                    // The mapping already holds user-facing keys (see build_hnsw_index)
                     let mut results: Vec<SearchResult> = neighbors
                         .into_iter()
                         .filter_map(|(idx, score)| {
                             mapping.get(idx).map(|key| SearchResult {
-                                key: key.strip_prefix(prefix).unwrap_or(key).to_string(),
+                                key: key.clone(),
                                 score,
                             })
                         })
@@ -2350,6 +2355,7 @@ impl VectorEngine {
         for key in keys {
             self.store.delete(&key)?;
         }
+        self.invalidate_hnsw_cache("_default");
         Ok(count)
     }
 
@@ -2936,6 +2942,7 @@ impl VectorEngine {
             })
             .count();
 
+        self.invalidate_hnsw_cache("_default");
         Ok(deleted)
     }
 
@@ -3305,6 +3312,7 @@ impl VectorEngine {
         }
 
         self.store.put(storage_key, tensor)?;
+        self.invalidate_hnsw_cache("_default");
         Ok(())
     }
 
